@@ -173,3 +173,26 @@ Example interp_at_last : interp 2 [0; 1; 2] [10; 20; 40] = 40.
 Proof. vm_compute. reflexivity. Qed.
 Example interp_outside : interp 3 [0; 1; 2] [10; 20; 40] = 0 /\ interp (-1) [0; 1; 2] [10; 20; 40] = 0.
 Proof. vm_compute. split; reflexivity. Qed.
+
+(* interp respects equality of rationals in the evaluation point *)
+Lemma interp_from_proper : forall xs fs x x' x0 f0, x == x' ->
+  interp_from x x0 f0 xs fs == interp_from x' x0 f0 xs fs.
+Proof.
+  induction xs as [|x1 xs IH]; intros fs x x' x0 f0 H; destruct fs as [|f1 fs]; simpl; try reflexivity.
+  assert (E1 : Qltb x x1 = Qltb x' x1) by (unfold Qltb; rewrite H; reflexivity).
+  assert (E2 : Qeq_bool x0 x = Qeq_bool x0 x') by (rewrite H; reflexivity).
+  rewrite E1, E2. destruct (Qltb x' x1).
+  - destruct (Qeq_bool x0 x'); [reflexivity|]. rewrite H. reflexivity.
+  - apply IH. exact H.
+Qed.
+
+Lemma interp_proper : forall xs fs x x', x == x' -> interp x xs fs == interp x' xs fs.
+Proof.
+  intros xs fs x x' H. destruct xs as [|x0 xs]; destruct fs as [|f0 fs]; simpl; try reflexivity.
+  assert (E1 : Qltb x x0 = Qltb x' x0) by (unfold Qltb; rewrite H; reflexivity).
+  rewrite E1. destruct (Qltb x' x0); [reflexivity|].
+  match goal with |- (if Qltb ?l x then _ else _) == _ =>
+    assert (E2 : Qltb l x = Qltb l x') by (unfold Qltb; rewrite H; reflexivity); rewrite E2;
+    destruct (Qltb l x'); [reflexivity|] end.
+  apply interp_from_proper. exact H.
+Qed.
